@@ -365,21 +365,45 @@ func ruleDirtyFlag(c *Ctx) {
 		switch funcName(fd) {
 		case "ProtoArray.FindHead", "ProtoArray.InSubtree":
 			readers++
+			// the refresh, here or in a helper, made exactly when the links are stale: on the way to the call (through
+			// every frame) the flag is known to be false, and nothing else about the array is assumed
 			tested := false
-			ast.Inspect(fd.Body, func(n ast.Node) bool {
-				if is, ok := n.(*ast.IfStmt); ok {
-					if ue, ok := ast.Unparen(is.Cond).(*ast.UnaryExpr); ok && ue.Op == token.NOT && isRecvField(info, ue.X, recv, "updatedConnections") {
-						ast.Inspect(is.Body, func(m ast.Node) bool {
-							if call, ok := m.(*ast.CallExpr); ok {
-								if f := calleeFunc(info, call); f != nil && f.Name() == "updateConnections" {
-									tested = true
-								}
-							}
-							return true
-						})
+			top := newInlEnv(info, fd.Body, nil, nil, nil, nil)
+			seq := 0
+			walkInlined(c.P, pk, top, 0, map[*ast.BlockStmt]bool{}, &seq, func(st inlSite) {
+				if st.f.Name() != "updateConnections" {
+					return
+				}
+				stale, other := false, false
+				for _, cd := range st.conds() {
+					var frRecv types.Object
+					if fr := cd.env; fr.up == nil {
+						frRecv = recv
+					} else if hd := declOfFunc(pk, calleeFuncOrNil(fr.up.info, fr.site)); hd != nil && hd.Recv != nil && len(hd.Recv.List) == 1 && len(hd.Recv.List[0].Names) == 1 {
+						frRecv = info.Defs[hd.Recv.List[0].Names[0]]
+					}
+					switch {
+					case frRecv != nil && isRecvField(cd.env.info, cd.e, frRecv, "updatedConnections"):
+						if cd.neg {
+							stale = true
+						} else {
+							other = true
+						}
+					default:
+						// an earlier exit of the function (equal roots: nothing to look up) narrows the later readers of
+						// the links just the same; a branch around the refresh alone would not
+						if cd.after {
+							continue
+						}
+						if be, ok := cd.e.(*ast.BinaryExpr); ok && (isNilExpr(cd.env.info, be.X) || isNilExpr(cd.env.info, be.Y)) {
+							continue
+						}
+						other = true
 					}
 				}
-				return true
+				if stale && !other {
+					tested = true
+				}
 			})
 			if tested {
 				c.ok(fname+"@refresh", fd.Pos(), "refreshes the links when they are stale")
